@@ -55,17 +55,28 @@ def run(tier):
             tid += 1
             traces.append({"id": tid, "recs": recs[max(0, i - 1):i + B]})
         nrec += len(recs)
-    # (c) raw timestamps, (d) time_track
-    tid += 1
-    traces.append({"id": tid, "recs": tc.raw_records(seed)})
-    tid += 1
-    traces.append({"id": tid, "recs": tc.track_records(seed)})
-    # (b') conversions as a file hands them out (timestamp properties and channel values read with raw_timestamps=False)
-    for mode in ("read", "open"):
-        tid += 1
-        traces.append({"id": tid, "recs": tc.file_convert_records(seed, mode)})
-        nrec += len(traces[-1]["recs"])
-    nrec += len(traces[-1]["recs"]) + len(traces[-2]["recs"])
+    # (c) raw timestamps, (d) time_track, (c') big-endian raw timestamp files, (b') conversions as a file hands them out
+    # (timestamp properties and channel values read with raw_timestamps=False)
+    def record(fn, *a):
+        """run a recorder; an exception raised inside the library is a finding about the library, not about the check"""
+        import os
+        import traceback
+        try:
+            return fn(*a)
+        except Exception as ex:  # noqa
+            frames = traceback.extract_tb(ex.__traceback__)
+            if not any(os.sep + "nptdms" + os.sep in fr.filename for fr in frames):
+                raise
+            chk.violation({"kind": "time", "record": fn.__name__, "what": "library-raised", "exception": type(ex).__name__},
+                          {"recorder": fn.__name__, "args": [repr(x) for x in a], "traceback": traceback.format_exc()[-2000:]})
+            return []
+    for fn, args in ((tc.raw_records, (seed,)), (tc.track_records, (seed,)), (tc.be_file_raw_records, (seed,)),
+                     (tc.file_convert_records, (seed, "read")), (tc.file_convert_records, (seed, "open"))):
+        recs = record(fn, *args)
+        if recs:
+            tid += 1
+            traces.append({"id": tid, "recs": recs})
+            nrec += len(recs)
     chk.count(nrec, range(nrec))
     # validate in batches of at most ~250 000 records per JVM (the deserialised traces live in TLC's heap)
     accepted, where = set(), {}
